@@ -271,3 +271,39 @@ package lint
 //@   loop 1 invariant len(values) == splitLen(raw, ",") && forall(j, 0, len(values), values[j] == splitAt(raw, ",", j))
 //@   ensures (result == nil) == forall(j, 0, splitLen(raw, ","),
 //@                trim(splitAt(raw, ",", j)) == "" || knownSource(LintSource(trim(splitAt(raw, ",", j)))))
+
+// ---------------------------------------------------------------------------
+// status labels (C14): written from the property - eight defined values, each with
+// its own label; anything else has the empty label.
+
+//@ spec label(s LintStatus) string =
+//@      ite(s == Reserved, "reserved", ite(s == NA, "NA", ite(s == NE, "NE", ite(s == Pass, "pass",
+//@      ite(s == Notice, "info", ite(s == Warn, "warn", ite(s == Error, "error", ite(s == Fatal, "fatal", ""))))))))
+//@ spec unq(data []byte) string = replaceAll(strOfBytes(data), "\"", "")
+//@ spec statusMapWF() bool =
+//@      forall(s, 0, 8, indom(StatusLabelToLintStatus, label(LintStatus(s))) &&
+//@                      StatusLabelToLintStatus[label(LintStatus(s))] == LintStatus(s)) &&
+//@      all(k, string, implies(indom(StatusLabelToLintStatus, k), exists(s, 0, 8, k == label(LintStatus(s)))))
+
+//@ func (LintStatus).String [C14]
+//@   pure
+//@   nopanic
+//@   ensures result == label(e)
+
+//@ lemma label_injective [C14]: forall(a, 0, 8, forall(b, 0, 8, implies(label(LintStatus(a)) == label(LintStatus(b)), a == b))) &&
+//@      forall(a, 0, 8, label(LintStatus(a)) != "" && plainASCII(label(LintStatus(a))))
+//@ lemma status_roundtrip [C14]: all(d, []byte, forall(s, 0, 8,
+//@      implies(strOfBytes(d) == quoted(label(LintStatus(s))), unq(d) == label(LintStatus(s)))))
+
+//@ func (LintStatus).MarshalJSON [C14]
+//@   nopanic
+//@   assigns \fresh
+//@   ensures implies(0 <= e && e <= 7, result1 == nil && strOfBytes(result0) == quoted(label(e)))
+
+//@ func (*LintStatus).UnmarshalJSON [C14]
+//@   requires e != nil && statusMapWF()
+//@   nopanic
+//@   assigns \fresh, *e
+//@   ensures implies(exists(s, 0, 8, unq(data) == label(LintStatus(s))),
+//@                   result == nil && label(*e) == unq(data) && 0 <= *e && *e <= 7)
+//@   ensures implies(!exists(s, 0, 8, unq(data) == label(LintStatus(s))), result != nil && *e == old(*e))
